@@ -9,6 +9,8 @@ def plan(ctx):
     texts = range(len(h.TEXTS))
     for call in ('parse', 'eval', 'list_names'):
         for ti in texts:
+            if ti in h.HISTORY_ONLY:
+                continue
             if quick and call != 'parse' and ti % 2 == (ctx["seed"] % 2):
                 continue
             obs.append(Obligation(f"havoc.{call}.t{ti}", "xh", "c11", "havoc_call", param={"call": call, "t": ti}, timeout=T,
@@ -17,7 +19,7 @@ def plan(ctx):
     for t1 in texts:
         obs.append(Obligation(f"history.after.t{t1}", "xh", "c11", "history_pair", param={"t1": t1, "quick": quick}, timeout=T * 2,
                               bounds="first call: 5 kinds (parse, eval, ops-limited eval, list_names, abandoned list_names) on this text; second call: "
-                                     + ("15 selected (call, text) pairs" if quick else "all 3 x 25 (call, text) pairs")
+                                     + ("17 selected (call, text) pairs" if quick else "all 3 x 29 (call, text) pairs")
                                      + " (finite domain; the solver only enumerates indices, bodies run natively)",
                               desc=f"after each kind of call on {h.TEXTS[t1]!r}, the next call equals a fresh parser's; post-state lies in the havoc domain; process-global state (decimal context) unchanged"))
     return {
@@ -28,7 +30,7 @@ def plan(ctx):
                        "havoc domain and cover state the havoc cannot name.",
         "functions": ["smartquery.sq_parser.SqParser.parse/eval/list_names", "smartquery.lexer.t_*", "smartquery.rules.p_*", "ply.lex.Lexer.token/input", "ply.yacc.LRParser.parseopt_notrack"],
         "files": ["smartquery/sq_parser.py", "smartquery/lexer.py", "smartquery/rules.py", "smartquery/ply/lex.py", "smartquery/ply/yacc.py"],
-        "bounds": "25 concrete texts; havoc'ed ints unbounded; histories of length 2 (longer histories: by the havoc step)",
+        "bounds": "29 concrete texts (4 of them history-only); havoc'ed ints unbounded; histories of length 2 (longer histories: by the havoc step)",
         "outside": "state on objects the harness does not know (new attributes) is only covered by the length-2 histories; lambdas captured across calls: C01 O6",
         "stubs": ["number formatting placeholder"],
         "assumptions": ["the listed fields are all the mutable state a call reads (checked against real histories of length 2)"],
